@@ -256,6 +256,25 @@ func runC04(r *Run) int {
 			}
 			checkBT2(w, "C04", level, s, &v, &exp, &x, kf)
 		}
+		// the same base / temporal metrics followed by an environmental group, read by the environmental decoder:
+		// the base and temporal scores seen through its views (quick: four seeded groups per vector; thorough: all
+		// 1,920, i.e. every one of the 141 million v2 vectors)
+		nEnv := r.Pick(4, nEnv2)
+		rng := r.Rng(uint64(idx) + 1<<44)
+		for j := 0; j < nEnv; j++ {
+			ve := v
+			if nEnv == nEnv2 {
+				env2(&ve, j)
+			} else {
+				env2(&ve, rng.IntN(nEnv2))
+			}
+			se := ve.String()
+			w.Eval(1)
+			w.Count("vectors_with_an_environmental_group")
+			if x := observe2(w, spec.LEnv, se); x.ok {
+				checkBT2(w, "C04", spec.LEnv, se, &ve, &exp, &x, kf)
+			}
+		}
 		if idx%6151 == 0 {
 			w.Sample(map[string]interface{}{"vector": s, "admissible_base": tset(exp.Base), "admissible_temporal": tset(exp.Temp)})
 		}
@@ -267,7 +286,7 @@ func runC04(r *Run) int {
 		r.Inconclusive("%d valid vectors were not decoded / %d queries panicked", r.Counter("valid_vector_not_decoded"), r.Counter("score_panicked"))
 	}
 	r.ProcsChildren(1<<30, 1, 3, 7, 14)
-	return r.Finish("all 729 x (100 + absent) = 73,629 v2 vectors, each read by every decoder whose level admits it (base decoder for bare vectors; temporal and environmental decoders for all), observing Base/Temporal scores through accessors and exported embedded fields; oracle = exact rational v2 equations with admissible sets for exact halves; distinct non-trivial = vectors whose base score is not identically 0",
+	return r.Finish("all 729 x (100 + absent) = 73,629 v2 vectors, each read by every decoder whose level admits it (base decoder for bare vectors; temporal and environmental decoders for all), and each followed by environmental groups (quick: 4 seeded ones; thorough: all 1,920 = all 141 million v2 vectors) at the environmental decoder, observing Base/Temporal scores through accessors and exported embedded fields; oracle = exact rational v2 equations with admissible sets for exact halves; distinct non-trivial = vectors whose base score is not identically 0",
 		true, nontrivial.Load(), 73629*2, 60000, TrustedBase)
 }
 
